@@ -888,7 +888,9 @@ func (f *frame) runDefers(st *State, cur string) (string, error) {
 		// conditional execution: run on a clone, then merge
 		stRun := st.clone()
 		curRun := and(cur, flag)
+		f.site = d
 		curAfter, err := f.call(nil, &d.Call, stRun, curRun)
+		f.site = nil
 		if err != nil {
 			return cur, err
 		}
